@@ -263,6 +263,9 @@ class SymExec(object):
         pynum = lambda v: isinstance(v, (int, float)) and not isinstance(v, bool)
         if pynum(a) and pynum(b) and isinstance(a, int) and isinstance(b, int) and not isinstance(op, ast.Div):
             pass
+        if isinstance(op, (ast.BitOr, ast.BitAnd, ast.BitXor, ast.LShift, ast.RShift, ast.MatMult)):
+            # element-wise mask algebra / matrix product: kept as an uninterpreted term
+            return Opaque("(%s %s %s)" % (self.text(a), {"BitOr": "|", "BitAnd": "&", "BitXor": "^", "LShift": "<<", "RShift": ">>", "MatMult": "@"}[type(op).__name__], self.text(b)))
         x, y = self.S(a, n), self.S(b, n)
         if isinstance(op, ast.Add):
             return x + y
@@ -330,6 +333,8 @@ class SymExec(object):
                 return opn == "IsNot"
         if opn in ("In", "NotIn") and isinstance(b, (list, tuple)) and const(a) and all(const(x) for x in b):
             return (a in b) == (opn == "In")
+        if opn in ("In", "NotIn") and isinstance(b, dict) and isinstance(a, (str, int)) and not isinstance(a, bool) and "__default__" not in b:
+            return (a in b) == (opn == "In")          # membership of a constant in an abstract dict (keys are kept as str / int)
         if opn in ("Lt", "LtE", "Gt", "GtE") and (isinstance(a, (sp.Basic, int, float)) or isinstance(b, (sp.Basic, int, float))) \
                 and not isinstance(a, (str, bool)) and not isinstance(b, (str, bool)):
             try:
@@ -573,6 +578,9 @@ class SymExec(object):
         if isinstance(s, ast.AugAssign):
             cur = self.ev(s.target, st)
             term = self.ev(s.value, st)
+            if not st.loops and isinstance(cur, list) and isinstance(term, (list, tuple)) and isinstance(s.op, ast.Add):
+                cur.extend(term)       # `lst += iterable` extends the list object in place: every alias of it sees the new elements
+                return [st]
             if st.loops and isinstance(s.target, ast.Name) and isinstance(s.op, (ast.Add, ast.Sub)):
                 tgt, it, declared = st.loops[-1]
                 if s.target.id in declared:
